@@ -113,6 +113,7 @@ def inline_call(fd, bb, gd):
                                  "rv": {"r": "use", "op": copy.deepcopy(a)}, "span": t["span"]})
     blk["term"] = {"t": "goto", "target": nb, "span": t["span"]}
     fd["blocks"].extend(g["blocks"])
+    _tag_error_returns(fd, nb, off, dest)
     _thread_error_returns(fd, nb, off, dest, target)
 
 
@@ -137,6 +138,32 @@ def _retarget(term, mapping):
     elif k in ("call", "drop", "assert"):
         if term.get("target") is not None:
             term["target"] = mapping.get(term["target"], term["target"])
+
+
+def _tag_error_returns(fd, nb, off, dest):
+    """When the caller hands the inlined call's result on as its own return value (`let r = helper(); ..; r`),
+    the helper's error returns are error exits of the caller: record them for FnView.all_err_nodes."""
+    if dest["proj"]:
+        return
+    returned = False
+    for b in fd["blocks"][:nb]:
+        for st in b["stmts"]:
+            if st["s"] == "assign" and st["place"]["local"] == 0 and not st["place"]["proj"] and st["rv"]["r"] == "use" \
+                    and st["rv"]["op"]["k"] in ("move", "copy") and st["rv"]["op"]["place"]["local"] == dest["local"] and not st["rv"]["op"]["place"]["proj"]:
+                returned = True
+    if not returned:
+        return
+    tags = fd.setdefault("inlined_err", [])
+    for j in range(nb, len(fd["blocks"])):
+        b = fd["blocks"][j]
+        if b["cleanup"]:
+            continue
+        for i, st in enumerate(b["stmts"]):
+            if st["s"] == "assign" and st["place"]["local"] == off and not st["place"]["proj"] and st["rv"]["r"] == "aggregate" and st["rv"].get("variant") == "Err":
+                tags.append(["s", j, i])
+        tj = b["term"]
+        if tj["t"] == "call" and not tj["dest"]["proj"] and tj["dest"]["local"] == off and "from_residual" in (tj.get("callee") or ""):
+            tags.append(["t", j])
 
 
 def _thread_error_returns(fd, nb, off, dest, target):
